@@ -2,7 +2,8 @@
 """Evaluate independently written breaking changes (sub-agent output) and file them under /verif/seeded.
 
 usage: tools/seed_eval.py <prop> <i> [--checks C01,C16] [--tier quick] [--keep]
-  source: /tmp/seed-<prop>/out/change_<i>.diff, demo_<i>.py, notes_<i>.md
+  source: /tmp/seed-<prop>/out/change_<i>.diff, demo_<i>.py, notes_<i>.md (the sub-agent's output), or, once that
+          scratch worktree is removed, the filed copy /verif/seeded/<prop>-<i>/
   1. confirm in a scratch worktree of /repo (outside /repo and /verif): the diff applies, the existing tests
      pass with it, the demonstration fails (exit 1) with it and passes (exit 0) without it;
   2. run the given checks (default: the property's own) against the changed tree (VT_REPO=<scratch>);
@@ -39,6 +40,10 @@ def main():
     diff = os.path.join(src, 'change_%s.diff' % i)
     demo = os.path.join(src, 'demo_%s.py' % i)
     notes = os.path.join(src, 'notes_%s.md' % i)
+    kept = os.path.join(V, 'seeded', '%s-%s' % (prop, i))
+    if not os.path.exists(diff) and os.path.exists(os.path.join(kept, 'patch.diff')):
+        # the sub-agent's scratch worktree is gone: re-evaluate the filed copy
+        diff, demo, notes = (os.path.join(kept, n) for n in ('patch.diff', 'demo.py', 'notes.md'))
     scratch = tempfile.mkdtemp(prefix='vt-seedeval-', dir='/tmp')
     os.rmdir(scratch)
     rc, out = sh(['git', '-C', '/repo', 'worktree', 'add', '-q', '--detach', scratch, 'HEAD'])
@@ -77,10 +82,10 @@ def main():
         if '--keep' in sys.argv:
             d = os.path.join(V, 'seeded', '%s-%s' % (prop, i))
             os.makedirs(d, exist_ok=True)
-            shutil.copy(diff, os.path.join(d, 'patch.diff'))
-            shutil.copy(demo, os.path.join(d, 'demo.py'))
-            if os.path.exists(notes):
-                shutil.copy(notes, os.path.join(d, 'notes.md'))
+            for srcf, name in ((diff, 'patch.diff'), (demo, 'demo.py'), (notes, 'notes.md')):
+                if os.path.exists(srcf) and os.path.abspath(srcf) != os.path.join(d, name):
+                    shutil.copy(srcf, os.path.join(d, name))
+            if os.path.exists(os.path.join(d, 'notes.md')):
                 meta['needs_to_manifest'] = 'see notes.md'
             meta['breaks'] = prop
             with open(os.path.join(d, 'meta.json'), 'w') as f:
